@@ -27,7 +27,10 @@ fn die(msg: &str) -> ! {
 }
 
 fn squash(s: &str) -> String {
-    s.chars().filter(|c| !c.is_whitespace()).collect()
+    // whitespace-free text; a trailing comma before a closing delimiter (rustfmt's multi-line call style) is dropped so that
+    // an anchor written on one line matches the same statement however it is wrapped
+    let t: String = s.chars().filter(|c| !c.is_whitespace()).collect();
+    t.replace(",)", ")").replace(",]", "]").replace(",}", "}")
 }
 
 // ---------------------------------------------------------------- cfg evaluation (R2)
@@ -304,6 +307,7 @@ struct Rw<'a> {
     subst_hits: Vec<usize>,
     after_pats: Vec<String>,   // squashed statement texts after which an `after["..."]` anchor is placed
     after_hits: Vec<usize>,    // how often each pattern matched
+    after_occ: Vec<Option<usize>>, // `after[".."]#k`: only the k-th match (1-based, source order) gets the text
 }
 
 fn is_cfg(a: &Attribute) -> bool {
@@ -576,7 +580,9 @@ impl<'a> VisitMut for Rw<'a> {
             for (pi, pat) in self.after_pats.clone().iter().enumerate() {
                 if *pat == stmt_text {
                     self.after_hits[pi] += 1;
-                    out.push(marker("__vx_after", Some(pi)));
+                    if self.after_occ[pi].map_or(true, |k| self.after_hits[pi] == k) {
+                        out.push(marker("__vx_after", Some(pi)));
+                    }
                 }
             }
             if let Some(k) = loop_id {
@@ -862,10 +868,23 @@ fn gen_unit(ctx: &mut Ctx, u: &UnitSpec, report: &mut Vec<serde_json::Value>) ->
     };
     let sha = format!("{:x}", Sha256::digest(orig_tokens.as_bytes()));
 
-    let after_pats: Vec<String> = u.anchors.keys().filter_map(|k| k.strip_prefix("after[\"").or_else(|| k.strip_prefix("after*[\"")).and_then(|r| r.strip_suffix("\"]")).map(|p| squash(p))).collect();
-    let after_multi: Vec<bool> = u.anchors.keys().filter(|k| k.starts_with("after[\"") || k.starts_with("after*[\"")).map(|k| k.starts_with("after*")).collect();
+    // `after["stmt"]`, `after*["stmt"]` (every match) and `after["stmt"]#k` (k-th match only)
+    fn split_after(k: &str) -> Option<(String, bool, Option<usize>)> {
+        let (body, occ) = match k.rfind("\"]#") {
+            Some(i) => (&k[..i + 2], k[i + 3..].parse::<usize>().ok()),
+            None => (k, None),
+        };
+        let multi = body.starts_with("after*[\"");
+        let r = body.strip_prefix("after[\"").or_else(|| body.strip_prefix("after*[\""))?;
+        let p = r.strip_suffix("\"]")?;
+        Some((squash(p), multi, occ))
+    }
+    let after_keys: Vec<String> = u.anchors.keys().filter(|k| split_after(k).is_some()).cloned().collect();
+    let after_pats: Vec<String> = after_keys.iter().map(|k| split_after(k).unwrap().0).collect();
+    let after_multi: Vec<bool> = after_keys.iter().map(|k| split_after(k).unwrap().1).collect();
+    let after_occ: Vec<Option<usize>> = after_keys.iter().map(|k| split_after(k).unwrap().2).collect();
     let n_after = after_pats.len();
-    let mut rw = Rw { ctx, log: &mut log, loops: 0, closures: 0, tmp: 0, err: None, no_ufcs: u.no_ufcs, ufcs_calls: u.ufcs_calls, substs: u.substs.clone(), subst_hits: vec![0; u.substs.len()], after_pats, after_hits: vec![0; n_after] };
+    let mut rw = Rw { ctx, log: &mut log, loops: 0, closures: 0, tmp: 0, err: None, no_ufcs: u.no_ufcs, ufcs_calls: u.ufcs_calls, substs: u.substs.clone(), subst_hits: vec![0; u.substs.len()], after_pats, after_hits: vec![0; n_after], after_occ: after_occ.clone() };
     // fn-level attributes
     match rw.strip_attrs(&mut fp.attrs, "fn") {
         Ok(true) => {},
@@ -1063,10 +1082,14 @@ fn gen_unit(ctx: &mut Ctx, u: &UnitSpec, report: &mut Vec<serde_json::Value>) ->
         text = text.replace(&format!("__vx_closure_end!({k});"), e.trim_end());
     }
     for (pi, pat) in after_pats_final.iter().enumerate() {
-        if after_hits_final[pi] == 0 || (after_hits_final[pi] != 1 && !after_multi[pi]) {
-            die(&format!("anchor-lost: unit {} `after[..]` pattern `{}` matched {} statements (need exactly 1, or >= 1 for after*)", u.name, pat, after_hits_final[pi]));
+        let bad = match after_occ[pi] {
+            Some(k) => after_hits_final[pi] < k || k == 0,
+            None => after_hits_final[pi] == 0 || (after_hits_final[pi] != 1 && !after_multi[pi]),
+        };
+        if bad {
+            die(&format!("anchor-lost: unit {} `after[..]` pattern `{}` matched {} statements (need exactly 1, >= 1 for after*, >= k for #k)", u.name, pat, after_hits_final[pi]));
         }
-        let key = u.anchors.keys().find(|k| k.strip_prefix("after[\"").or_else(|| k.strip_prefix("after*[\"")).and_then(|r| r.strip_suffix("\"]")).map(|p| squash(p) == *pat).unwrap_or(false)).unwrap().clone();
+        let key = after_keys[pi].clone();
         text = text.replace(&format!("__vx_after!({pi});"), u.anchors[&key].trim_end());
     }
     for key in u.anchors.keys() {
@@ -1151,7 +1174,7 @@ fn gen_item(ctx: &mut Ctx, file: &str, sel: &str, strip_generics: bool, report: 
             st.generics = Default::default();
         }
     }
-    let mut rw = Rw { ctx, log: &mut log, loops: 0, closures: 0, tmp: 0, err: None, no_ufcs: false, ufcs_calls: false, substs: vec![], subst_hits: vec![], after_pats: vec![], after_hits: vec![] };
+    let mut rw = Rw { ctx, log: &mut log, loops: 0, closures: 0, tmp: 0, err: None, no_ufcs: false, ufcs_calls: false, substs: vec![], subst_hits: vec![], after_pats: vec![], after_hits: vec![], after_occ: vec![] };
     rw.visit_item_mut(&mut it);
     let toks = it.to_token_stream().to_string();
     let sha = format!("{:x}", Sha256::digest(toks.as_bytes()));
